@@ -299,3 +299,8 @@ impl CacheHandler {
         out_result
     }
 }
+
+#[cfg(feature = "isomer_erbium_verif")]
+mod isomer_erbium_verif {
+    include!(concat!(env!("ISOMER_ERBIUM_VERIF_DIR"), "/dns_cache.rs"));
+}
